@@ -5,6 +5,7 @@ package main
 import (
 	"encoding/json"
 	"fmt"
+	"hash/fnv"
 	"math/rand"
 	"net/http"
 	"net/http/httptest"
@@ -34,6 +35,14 @@ type c05In struct {
 	Model   int      `json:"model,omitempty"`
 	Origin  []string `json:"origin,omitempty"`  // how each path was produced (distribution report only)
 	Flavour string   `json:"flavour,omitempty"` // which generator made the table (distribution report only)
+	// tab / look / order: the exported option Router.SizeHint as set by the caller before Build (nil: left at
+	// the default -1, Build computes it). It is documented as a capacity hint only: the answers are those of
+	// the model, which has no such parameter. order: the second router gets the hint, the first the default.
+	Hint *int `json:"hint,omitempty"`
+	// mux: request i as the client spelled it on the wire (request target, percent-escapes and all), parsed
+	// the way net/http parses a request line (url.ParseRequestURI: URL.Path decoded, URL.RawPath set when the
+	// spelling is not the canonical one). Empty or not decoding to Paths[i]: the request carries URL.Path only.
+	Targets []Bs `json:"targets,omitempty"`
 }
 
 type c05Param struct {
@@ -62,6 +71,7 @@ type c05Obs struct {
 	Ans        []c05Ans  `json:"ans,omitempty"`
 	Ans2       []c05Ans  `json:"ans2,omitempty"`
 	Go         int       `json:"go,omitempty"`
+	ReqForm    []string  `json:"req_form,omitempty"` // mux: path | target | target+rawpath | target-rejected
 }
 
 type c05 struct{}
@@ -91,7 +101,12 @@ func (c05) Rule() string {
 		"(services /<n>-<word> with 1-4 routes of 50-120 bytes each: P/:id/w1/w2/:k2/..., a route sharing /:id/w1/, a literal sibling of :id that spells the first route for a while, P/:id) grown until the " +
 		"real array uses more than 2^16 + 4 000 cells, ~250 paths: instantiations of routes whose parameter nodes lie beyond cell 2^16 (read off the real array) and of a few that lie below, the same " +
 		"with the literal sibling's word as the value (the walk follows the sibling and has to come back), prefixes, extensions, crossovers; generated case 20 = 'longpath': a key with a literal run of more " +
-		"than 2^16 bytes in front of a placeholder plus a literal sibling, and a parameter value of more than 2^16 bytes; thorough tier: one of each (table up to 2^17 cells) per 500 cases. Non-trivial: a table with a parameterised key and at least one lookup that is found with parameters or contains a reserved byte."
+		"than 2^16 bytes in front of a placeholder plus a literal sibling, and a parameter value of more than 2^16 bytes; thorough tier: one of each (table up to 2^17 cells) per 500 cases. " +
+		"Option Router.SizeHint: one generated tab/look/order case in three (by case index) and 7 of the 8 chunks of each byte-enumeration table are built by a caller who set SizeHint before Build to " +
+		"0, 1, one below / equal to / one above the real maximal placeholder count, far above, or -2 (order: only the second router; the answers must be those of the model, which has no such parameter). " +
+		"Mux requests: 65% are spelled as a request target and parsed as net/http does (url.ParseRequestURI), 15% canonically (URL.RawPath empty), 50% with escapes of the client's own on any byte with probability 1/2..1/7 " +
+		"('/' as %2F, letters, '-', '.', lower-case hex; URL.RawPath set), 8 more requests per case instantiate a key with values holding an escaped separator, '%', space, non-ASCII; one enumerated table asked for with every single byte of " +
+		"an instantiation escaped in turn; expected answer = the model's for the decoded URL.Path. Non-trivial: a table with a parameterised key and at least one lookup that is found with parameters or contains a reserved byte."
 }
 
 func (c05) Decode(raw json.RawMessage) (any, error) {
@@ -119,12 +134,15 @@ func c05Lookup(rt *denco.Router, path string) (a c05Ans) {
 	return a
 }
 
-func c05Build(keys []string, order []int) (rt *denco.Router, errText, panicText string) {
+func c05Build(keys []string, order []int, hint ...*int) (rt *denco.Router, errText, panicText string) {
 	recs := make([]denco.Record, 0, len(keys))
 	for _, i := range order {
 		recs = append(recs, denco.NewRecord(keys[i], i))
 	}
 	rt = denco.New()
+	if len(hint) > 0 && hint[0] != nil {
+		rt.SizeHint = *hint[0]
+	}
 	p, msg := recoverTo(func() {
 		if err := rt.Build(recs); err != nil {
 			errText = err.Error()
@@ -150,7 +168,7 @@ func (c05) Run(in0 any) any {
 	keys := bsList(in.Pats)
 	switch in.Kind {
 	case "tab":
-		rt, e, p := c05Build(keys, c05Iota(len(keys)))
+		rt, e, p := c05Build(keys, c05Iota(len(keys)), in.Hint)
 		obs.BuildErr, obs.BuildPanic = e, p
 		if e != "" || p != "" {
 			return obs
@@ -169,7 +187,7 @@ func (c05) Run(in0 any) any {
 			obs.Ans = append(obs.Ans, c05Lookup(rt, string(path)))
 		}
 	case "look":
-		rt, e, p := c05Build(keys, c05Iota(len(keys)))
+		rt, e, p := c05Build(keys, c05Iota(len(keys)), in.Hint)
 		obs.BuildErr, obs.BuildPanic = e, p
 		if e != "" || p != "" {
 			return obs
@@ -179,7 +197,7 @@ func (c05) Run(in0 any) any {
 		}
 	case "order":
 		rt1, e1, p1 := c05Build(keys, c05Iota(len(keys)))
-		rt2, e2, p2 := c05Build(keys, in.Perm)
+		rt2, e2, p2 := c05Build(keys, in.Perm, in.Hint)
 		obs.BuildErr, obs.BuildPanic = e1+e2, p1+p2
 		if obs.BuildErr != "" || obs.BuildPanic != "" {
 			return obs
@@ -215,7 +233,24 @@ func (c05) Run(in0 any) any {
 		}
 		for i, path := range in.Paths {
 			ran, got = -1, nil
-			req := &http.Request{Method: string(in.ReqM[i]), URL: &url.URL{Path: string(path)}, Header: http.Header{}}
+			u, form := &url.URL{Path: string(path)}, "path"
+			if i < len(in.Targets) && len(in.Targets[i]) > 0 {
+				// the request line as net/http reads it; taken only when it decodes to the path of the case
+				pu, err := url.ParseRequestURI(string(in.Targets[i]))
+				switch {
+				case err != nil || pu.Path != string(path) || pu.RawQuery != "" || pu.Host != "" || pu.Scheme != "":
+					form = "target-rejected"
+				case pu.RawPath != "":
+					u, form = pu, "target+rawpath"
+				default:
+					u, form = pu, "target"
+				}
+			}
+			obs.ReqForm = append(obs.ReqForm, form)
+			req := &http.Request{Method: string(in.ReqM[i]), URL: u, Header: http.Header{}}
+			if form != "path" && form != "target-rejected" {
+				req.RequestURI = string(in.Targets[i]) // as the server fills it in
+			}
 			var a c05Ans
 			p, msg := recoverTo(func() { h.ServeHTTP(httptest.NewRecorder(), req) })
 			switch {
@@ -1600,7 +1635,193 @@ func c05GenLongPath(r *rand.Rand, tier string) c05In {
 	return c05In{Kind: "look", Pats: toBs(keys), Paths: paths, Origin: origin, Flavour: "longpath"}
 }
 
+// ---------- options and request spellings (drawn from a generator of their own, derived from the case, so
+// that the tables and paths of a run are the same with and without them) ----------
+
+func c05SubRand(in c05In, i int) *rand.Rand {
+	h := fnv.New64a()
+	fmt.Fprintf(h, "%d|%s", i, in.Kind)
+	for _, k := range in.Pats {
+		h.Write([]byte(k))
+		h.Write([]byte{0xff})
+	}
+	for _, k := range in.Paths {
+		h.Write([]byte(k))
+		h.Write([]byte{0xfe})
+	}
+	return rand.New(rand.NewSource(int64(h.Sum64() >> 1)))
+}
+
+// c05MaxPlaceholders is the number Build computes for SizeHint when the caller left it alone.
+func c05MaxPlaceholders(keys []string) int {
+	m := 0
+	for _, k := range keys {
+		if !c05IsParamKey(k) {
+			continue
+		}
+		if n := strings.Count(k, ":") + strings.Count(k, "*"); n > m {
+			m = n
+		}
+	}
+	return m
+}
+
+// c05HintChoice: the values a caller may give Router.SizeHint relative to the real maximum m: none at all,
+// far below, just below, exact, just above, far above, and a negative one other than the default.
+func c05HintChoice(keys []string, k int) *int {
+	m := c05MaxPlaceholders(keys)
+	v := 0
+	switch k % 7 {
+	case 0:
+		v = 0
+	case 1:
+		v = 1
+	case 2:
+		v = m - 1
+	case 3:
+		v = m
+	case 4:
+		v = m + 1
+	case 5:
+		v = 2*m + 3
+	default:
+		v = -2
+	}
+	return &v
+}
+
+const c05Hex = "0123456789ABCDEF"
+
+// c05EncodeTarget spells a path as a request target. Bytes that may not stand in a target as they are get a
+// percent-escape; every other byte gets one with probability 1/rate (an escape the client did not need: letters,
+// '-', '.', '/' as %2F, ...; rate 0 = never), bytes listed in force always; one escape in five in lower-case hex.
+func c05EncodeTarget(r *rand.Rand, p string, force map[int]bool, rate int) string {
+	var sb strings.Builder
+	for i := 0; i < len(p); i++ {
+		c := p[i]
+		plain := c >= 'a' && c <= 'z' || c >= 'A' && c <= 'Z' || c >= '0' && c <= '9' || strings.IndexByte("-._~/$&+,:;=@", c) >= 0
+		if !plain && strings.IndexByte("!'()*", c) >= 0 && r.Intn(2) == 0 {
+			plain = true // accepted as they are, but not what the canonical spelling has
+		}
+		if plain && !force[i] && (rate == 0 || r.Intn(rate) != 0) {
+			sb.WriteByte(c)
+			continue
+		}
+		hi, lo := c05Hex[c>>4], c05Hex[c&15]
+		if r.Intn(5) == 0 {
+			hi, lo = strings.ToLower(string(hi))[0], strings.ToLower(string(lo))[0]
+		}
+		sb.WriteByte('%')
+		sb.WriteByte(hi)
+		sb.WriteByte(lo)
+	}
+	return sb.String()
+}
+
+var c05ValueWords = []string{"alice", "denco", "a", "b", "7", "x-y", "v1.2", "caf\xc3\xa9", "50%", "a b", "r_1", "~u", "x:y", "q=1", "a+b"}
+
+// c05InstEscaped instantiates a key with values that hold what a client has to escape, among them the
+// separator itself: /user/:name asked for as /user/a%2Fb is the path /user/a/b. Returns the decoded path and
+// the positions of the bytes that came from inside a value and must be escaped in the target.
+func c05InstEscaped(r *rand.Rand, key string) (path string, force map[int]bool) {
+	force = map[int]bool{}
+	var sb strings.Builder
+	value := func() {
+		n := 1 + r.Intn(2)
+		if r.Intn(3) == 0 {
+			n = 1
+		}
+		for j := 0; j < n; j++ {
+			if j > 0 || r.Intn(12) == 0 {
+				force[sb.Len()] = true
+				sb.WriteByte('/')
+			}
+			sb.WriteString(c05ValueWords[r.Intn(len(c05ValueWords))])
+		}
+		if r.Intn(12) == 0 {
+			force[sb.Len()] = true
+			sb.WriteByte('/')
+		}
+	}
+	for i := 0; i < len(key); {
+		switch {
+		case !c05IsParamKey(key):
+			sb.WriteByte(key[i])
+			i++
+		case key[i] == ':':
+			for i < len(key) && key[i] != '/' {
+				i++
+			}
+			value()
+		case key[i] == '*':
+			value()
+			if r.Intn(2) == 0 {
+				sb.WriteByte('/')
+				value()
+			}
+			i = len(key)
+		default:
+			sb.WriteByte(key[i])
+			i++
+		}
+	}
+	return sb.String(), force
+}
+
+// c05MuxSpell chooses, for every request of a mux case, how the client spelled it: URL.Path only (as before),
+// the canonical request target (URL.RawPath stays empty), or a target with escapes of the client's own (URL.RawPath
+// set); and adds requests whose values hold an escaped separator. The expected answer is the model's for URL.Path.
+func c05MuxSpell(r *rand.Rand, in c05In) c05In {
+	keys := bsList(in.Pats)
+	in.Targets = make([]Bs, len(in.Paths))
+	for j, p := range in.Paths {
+		switch k := r.Intn(20); {
+		case k < 7:
+		case k < 10:
+			in.Targets[j] = Bs(c05EncodeTarget(r, string(p), nil, 0))
+		default:
+			in.Targets[j] = Bs(c05EncodeTarget(r, string(p), nil, 2+r.Intn(6)))
+		}
+	}
+	ms := []string{"GET", "POST", "PUT", "DELETE"}
+	for n := 0; n < 8; n++ {
+		key := keys[r.Intn(len(keys))]
+		p, force := c05InstEscaped(r, key)
+		rate := 0
+		if r.Intn(2) == 0 {
+			rate = 3 + r.Intn(6)
+		}
+		m := string(in.Methods[r.Intn(len(in.Methods))])
+		if r.Intn(5) == 0 {
+			m = ms[r.Intn(len(ms))]
+		}
+		in.Paths, in.Origin, in.ReqM = append(in.Paths, Bs(p)), append(in.Origin, "escaped-value"), append(in.ReqM, Bs(m))
+		in.Targets = append(in.Targets, Bs(c05EncodeTarget(r, p, force, rate)))
+	}
+	return in
+}
+
+func c05Decorate(in c05In, i int) c05In {
+	if in.Flavour == "big" || in.Flavour == "longpath" {
+		return in
+	}
+	switch in.Kind {
+	case "tab", "look", "order":
+		// one table in three is built by a caller who set Router.SizeHint
+		if i%3 == 2 {
+			in.Hint = c05HintChoice(bsList(in.Pats), i/3)
+		}
+	case "mux":
+		in = c05MuxSpell(c05SubRand(in, i), in)
+	}
+	return in
+}
+
 func (c05) Gen(r *rand.Rand, tier string, i int) any {
+	return c05Decorate(c05GenBase(r, tier, i), i)
+}
+
+func c05GenBase(r *rand.Rand, tier string, i int) c05In {
 	// three families are scheduled by the case index, so that every seed runs them: reserved bytes inside a
 	// literal segment of a key (i = 1 mod 10), reserved byte after a complete pattern on 10-40 routes (i = 6 mod 10),
 	// few long deeply nested routes (i = 3 mod 10; with the dumped arrays and repr_check for i = 3 mod 20)
@@ -1783,6 +2004,39 @@ func c05EnumLong(r *rand.Rand, keys []string) []any {
 	return out
 }
 
+// A fixed Mux table; every key instantiated once and asked for with each single byte of the path escaped in
+// turn (a separator of the pattern as %2F, a literal byte, a byte of a value: URL.Path is the same path every
+// time), in upper- and lower-case hex, plus values that hold an escaped separator, '%' and non-ASCII bytes.
+var c05MuxFixed = []string{"/user/:name", "/repos/:owner/:repo", "/repos/:owner", "/files/*filepath", "/hello-world",
+	"/a.b/c_d", "/v1/%41/:x", "/x/:y/z", "/x/:y/z/:w", "/r/k=:v/s"}
+
+func c05EnumMux(r *rand.Rand) []any {
+	in := c05In{Kind: "mux", Flavour: "escapes"}
+	for i, k := range c05MuxFixed {
+		in.Pats, in.Methods = append(in.Pats, Bs(k)), append(in.Methods, "GET")
+		if i%3 == 1 {
+			in.Pats, in.Methods = append(in.Pats, Bs(k)), append(in.Methods, "POST")
+		}
+	}
+	add := func(m, p, target string) {
+		in.Paths, in.ReqM, in.Targets, in.Origin = append(in.Paths, Bs(p)), append(in.ReqM, Bs(m)), append(in.Targets, Bs(target)), append(in.Origin, "enum")
+	}
+	for _, k := range c05MuxFixed {
+		p := c05BenignInst(r, k)
+		add("GET", p, "")
+		add("GET", p, c05EncodeTarget(r, p, nil, 0))
+		for j := 1; j < len(p); j++ {
+			add("GET", p, c05EncodeTarget(r, p, map[int]bool{j: true}, 0))
+		}
+		for n := 0; n < 6; n++ {
+			q, force := c05InstEscaped(r, k)
+			add([]string{"GET", "POST"}[n%2], q, c05EncodeTarget(r, q, force, 0))
+			add("GET", q, c05EncodeTarget(r, q, force, 4))
+		}
+	}
+	return []any{in}
+}
+
 func (c05) Enumerate(tier string) []any {
 	var out []any
 	consts := map[string]int{"ParamCharacter": 58, "WildcardCharacter": 42, "TerminationCharacter": 35, "SeparatorCharacter": 47,
@@ -1801,9 +2055,14 @@ func (c05) Enumerate(tier string) []any {
 		{"/a/:y/b", "/:x/*w", "/:y/c"},
 		{"/ab/cab/:y", "/cab", "/ab/:y/c", "/:y", "/ba/c/:x"},
 	}
-	for _, keys := range tables {
+	for ti, keys := range tables {
 		for lo := 0; lo < 256; lo += 32 {
 			in := c05In{Kind: "tab", Pats: toBs(keys)}
+			// the option Router.SizeHint: left alone for the first chunk of a table, then every choice of
+			// c05HintChoice (0, 1, just below / equal to / above the real maximum, far above, negative)
+			if lo > 0 {
+				in.Hint = c05HintChoice(keys, lo/32-1+ti)
+			}
 			for c := lo; c < lo+32; c++ {
 				ch := string([]byte{byte(c)})
 				for _, p := range []string{"/a/" + ch, "/a/x" + ch + "y", "/a/" + ch + "/1", "/x/" + ch + "a/b", "/" + ch + "c/a", "/" + ch + "/" + ch + "/" + ch} {
@@ -1835,6 +2094,8 @@ func (c05) Enumerate(tier string) []any {
 	out = append(out, c05EnumTails(er, c05ApiFixed)...)
 	// few long routes: the array is far bigger than the record count; every proper prefix must be refused
 	out = append(out, c05EnumLong(er, c05LongFixed)...)
+	// the handler of Mux.Build against requests spelled with percent-escapes
+	out = append(out, c05EnumMux(er)...)
 	// small-scope exhaustive part: every path up to a length over {a b / : * #} against small tables
 	letters := []byte("ab/:*#")
 	var all func(n int) []string
@@ -1965,6 +2226,24 @@ func (c05) Category(in0 any, obs0 any) (string, bool) {
 	for _, k := range keys {
 		if !c05IsParamKey(k) && strings.ContainsAny(k, ":*") {
 			cat += "/static-key-with-reserved-byte"
+			break
+		}
+	}
+	if in.Hint != nil {
+		switch m := c05MaxPlaceholders(keys); {
+		case *in.Hint < 0:
+			cat += "/sizehint<0"
+		case *in.Hint < m:
+			cat += "/sizehint<max"
+		case *in.Hint == m:
+			cat += "/sizehint=max"
+		default:
+			cat += "/sizehint>max"
+		}
+	}
+	for _, f := range obs.ReqForm {
+		if f == "target+rawpath" {
+			cat += "/requests-with-rawpath"
 			break
 		}
 	}
